@@ -475,7 +475,7 @@ def run(rep):
     ok, out = common.cargo_build(["blockstore"], "dev")
     if not ok:
         raise common.MachineryError("cargo build failed: " + out[-2000:])
-    nshort, nlong = (220, 30) if tier == "quick" else (7000, 600)
+    nshort, nlong = (150, 18) if tier == "quick" else (7000, 600)
     cases = corpus_cases()
     for i in range(nshort + nlong):
         cases.append(gen_case(rng.fork(), "long" if i % ((nshort + nlong) // nlong) == 0 else "short"))
